@@ -70,6 +70,41 @@ def run(ctx):
     si = prog.fn(T + "setupInnerForStatement")
     sc = prog.fn(T + "setupCheckStatement")
     pidx = {f.q: {p["n"]: i for i, p in enumerate(f.d["params"])} for f in (sb, si, sc)}
+    # the remainder guard may be left out only on the user's word (check = false): every return of setupCheckStatement that builds nothing
+    # is decided by the `check` keyword argument alone - never by the loop header or the tile size
+    sdefs = sc.local_defs()
+    spar = {p["d"]: p["n"] for p in sc.d["params"]}
+    def roots_of(e, depth=0, seen=None):
+        seen = seen if seen is not None else set()
+        out = set()
+        for x in walk(e):
+            if x["k"] == "MemberExpr" and x.get("n", "").split("::")[-1] in ("args",):
+                out.add("attr.args")
+            if x["k"] == "DeclRefExpr" and x.get("d") in spar:
+                out.add(spar[x["d"]])
+            elif x["k"] == "DeclRefExpr" and x.get("loc") and x.get("d") not in seen and depth < 4:
+                seen.add(x["d"])
+                for dn in sdefs.get(x["d"], []):
+                    src_ = kids(dn)[0] if dn["k"] == "VarDecl" and kids(dn) else (kids(dn)[1] if len(kids(dn)) > 1 else None)
+                    if src_ is not None:
+                        out |= roots_of(src_, depth + 1, seen)
+        return out
+    attr_name = sc.d["params"][0]["n"]
+    n_drop = 0
+    guard_drop_violated = False
+    for ifs in [n for n in sc.walk() if n["k"] == "IfStmt" and not n.get("mac")]:
+        then = kids(ifs)[1]
+        if not any(x["k"] == "ReturnStmt" for x in walk(then)) or any(x["k"] == "CXXNewExpr" for x in walk(then)):
+            continue
+        n_drop += 1
+        rs = roots_of(kids(ifs)[0])
+        extra = sorted(r for r in rs if r != attr_name)
+        guard_drop_violated = guard_drop_violated or bool(extra)
+        R.ob("C18-R3", not extra, sc.q, "guard dropped only on check=: `%s`" % noid(render(kids(ifs)[0], False))[:60], sc.site(ifs),
+             "decided by the check keyword argument alone" if not extra else
+             "the remainder guard is also left out depending on %s: a tile count that is not a whole number of blocks (extent divisible by TILE, trip count not: `i < 8; i += 3; @tile(4)`) runs iterations beyond the bound" % ", ".join(extra))
+    if n_drop < 1:
+        raise AnalysisBroken("setupCheckStatement: the check=false exit was not found")
     for f in (sb, si, sc):
         kinds = [f.tname(p.get("t")) for p in f.d["params"]]
         if sum("forStatement" in k_ and "okl" not in k_ for k_ in kinds) != 2 or sum("variable_t" in k_ for k_ in kinds) != 1:
@@ -124,6 +159,8 @@ def run(ctx):
             b = Builder(prog, f, {}, cfgd, {}, sym_sources=src, op_sources=ops, cond_fallback=fb)
             caps = b.effects()
         except TermError as e:
+            if f.q == sc.q and guard_drop_violated:
+                return None       # already reported: the builder has an exit the header facts do not decide
             raise AnalysisBroken("%s %s: builder not reducible to closed forms: %s" % (f.q, cfgd, e))
         out = {}
         for kind, node, term in caps:
@@ -182,6 +219,8 @@ def run(ctx):
     vi, bi, ii = roles(sc)
     for right in (True, False):
         st = stores(sc, {"member:checkValueOnRight": right})
+        if st is None:
+            continue
         cond = st.get(("call", "setCondition"), [])
         want = ("OP:check", X_, NF(Poly.sym("BOUND_R"))) if right else ("OP:check", NF(Poly.sym("BOUND_L")), X_)
         got = nf(cond[0]) if len(cond) == 1 else None
